@@ -19,7 +19,8 @@ const P: &str = "C15";
 pub fn generate(r: &mut Prng, seed: u64, run: u64) -> Scenario {
     let mut cfg = GenCfg::draw(r);
     cfg.obsolete = false;
-    cfg.names = cfg.names.min(1);
+    // the Builder keeps names of any length (only the binary format cuts them): sometimes over-long symbols
+    cfg.names = if r.chance(1, 10) { 3 } else { cfg.names.min(1) };
     cfg.n_terms = cfg.n_terms.min(25);
     cfg.max_recs = [r.urange(0, 5), r.urange(0, 4), r.urange(0, 4)];
     let facts = gen_facts(r, &cfg);
